@@ -184,3 +184,17 @@ impl IoError {
     #[verifier::external_body]
     pub fn is_interrupted(&self) -> (r: bool) ensures r == (self.k == ErrorKind::Interrupted) { self.k == ErrorKind::Interrupted }
 }
+
+// A2: read_exact into a whole Vec<u8> (`&mut vec` / `&mut vec[..]` deref to &mut [u8])
+#[verifier::external_body]
+pub fn read_exact_vec(reader: &mut Source, buf: &mut Vec<u8>) -> (r: Result<(), IoError>)
+    ensures
+        final(buf)@.len() == old(buf)@.len(),
+        final(reader).reliable() == old(reader).reliable(),
+        match r {
+            Ok(_) => old(reader)@.len() >= old(buf)@.len()
+                && final(buf)@ == old(reader)@.subrange(0, old(buf)@.len() as int)
+                && final(reader)@ == old(reader)@.skip(old(buf)@.len() as int),
+            Err(e) => (old(reader).reliable() ==> old(reader)@.len() < old(buf)@.len()) },
+        old(reader).reliable() && old(reader)@.len() >= old(buf)@.len() ==> r is Ok,
+{ unimplemented!() }
